@@ -201,8 +201,8 @@ class DocPool:
         self.NumbersUUID = NumbersUUID
         self.docs = {}
 
-    def get(self, shape):
-        if shape not in self.docs:
+    def get(self, shape, fresh=False):
+        if fresh or shape not in self.docs:
             with warnings.catch_warnings():
                 warnings.simplefilter("ignore")
                 doc = self.Document(num_rows=NROWS, num_cols=NCOLS, num_header_rows=0, num_header_cols=0)
@@ -218,12 +218,14 @@ class DocPool:
                         t.num_header_rows = 0
                         t.num_header_cols = 0
                         t._model.formula_ast(t._table_id)   # fills the cache slot we then own
+            if fresh:
+                return doc, tables
             self.docs[shape] = (doc, tables)
         return self.docs[shape]
 
-    def apply(self, cfg, mark_dirty=True, only=None):
+    def apply(self, cfg, mark_dirty=True, only=None, target=None):
         """Put the document of cfg's shape into configuration cfg through the API."""
-        doc, tables = self.get(shape_of(cfg))
+        doc, tables = target or self.get(shape_of(cfg))
         for si, s in enumerate(cfg):
             if only in (None, "sheetname"):
                 doc.sheets[si].name = s["name"]
@@ -314,7 +316,7 @@ def impl_texts(pool: DocPool, doc, tables, host, tgt, items):
             except Exception as e:  # noqa: BLE001
                 a = exc_name(e)
             b = None
-            if 0 <= hr < NROWS and 0 <= hc < NCOLS:
+            if 0 <= hr < htab.num_rows and 0 <= hc < htab.num_cols:
                 cell = htab.cell(hr, hc)
                 old = cell._formula_id
                 cell._formula_id = k
@@ -398,7 +400,7 @@ def gen_items(rng, budget, labelled):
     flags4 = [(a, b, c, d) for a in (False, True) for b in (False, True) for c in (False, True) for d in (False, True)]
     flags2 = [(a, b) for a in (False, True) for b in (False, True)]
     n_cell = budget // 4
-    n_rect = budget // 4
+    n_rect = max(16, budget // 4)
     n_span = budget // 5
     # single cells: all four flag combinations, hosts over the body
     for k in range(n_cell):
@@ -672,7 +674,7 @@ def oracle_item(cfg, host, tgt, intent, text):
 # one configuration through implementation, model and oracle
 # =====================================================================================
 def pair_budget(ctx):
-    return 60 if ctx.quick else 120
+    return 60 if ctx.quick else 100
 
 
 def choose_pairs(rng, cfg, limit):
@@ -774,6 +776,15 @@ def resolver_stream(ctx, exe, recorded):
             reqs.append("\t".join(["rsl", dline, str(host[0]), str(host[1]), str(len(prefix)), p[0], p[1], cps(segs[0])]))
             exps.append(f"{int(c[2])}|" + ",".join(f"{tid[0]}.{tid[1]}.{h[0]}.{h[1]}" for tid, hs in hits for h in hs[0]))
             cases.append({"cfg": cfg, "host": host, "prefix": prefix, "body": segs[0]})
+        if len(segs) == 2:
+            c2 = classify(segs[1])
+            if c[0] == "label" and c2[0] == "label":
+                hits = resolve_labels(cfg, host, prefix, [c[1], c2[1]])
+                reqs.append("\t".join(["rss", dline, str(host[0]), str(host[1]), str(len(prefix)), p[0], p[1],
+                                       cps(segs[0]), cps(segs[1])]))
+                exps.append(f"{int(c[2])}{int(c2[2])}|" + ",".join(
+                    f"{tid[0]}.{tid[1]}.{h1[0]}.{h1[1]}.{h2[0]}.{h2[1]}" for tid, hs in hits for h1 in hs[0] for h2 in hs[1]))
+                cases.append({"cfg": cfg, "host": host, "prefix": prefix, "body": segs})
     # prefixes nobody printed
     for cfg, host, _ in recorded[:: max(1, len(recorded) // 400)]:
         names = [t["name"] for s in cfg for t in s["tables"]] + [s["name"] for s in cfg] + ["nope"]
@@ -808,7 +819,13 @@ def edit_stream(ctx, pool, n):
                 if kind == "headers":
                     t["nhr"], t["nhc"] = b[si]["tables"][ti]["nhr"], b[si]["tables"][ti]["nhc"]
                 if kind == "labels":
-                    t["grid"] = {kk: (rng.choice(LABEL_POOL[:4]) if v else v) for kk, v in t["grid"].items()}
+                    # change single label cells of body lines (never a corner cell of the header area)
+                    for _ in range(rng.randrange(1, 3)):
+                        i = rng.randrange(2, NROWS)
+                        if t["nhc"] > 0 and rng.random() < 0.5:
+                            t["grid"][f"{i},{t['nhc'] - 1}"] = rng.choice(LABEL_POOL[:4] + ["zz", ""])
+                        elif t["nhr"] > 0:
+                            t["grid"][f"{t['nhr'] - 1},{i}"] = rng.choice(LABEL_POOL[:4] + ["zz", ""])
         doc, tables = pool.apply(a)
         tids = all_tids(a)
         pairs = [(h, t) for h in tids for t in tids]
@@ -833,13 +850,66 @@ def edit_stream(ctx, pool, n):
     return fails
 
 
+RESIZE_OPS = ["add_row", "delete_row", "add_column", "delete_column"]
+
+
+def do_resize(tb, op, at):
+    if op == "add_row":
+        tb.add_row(start_row=at)
+    elif op == "delete_row":
+        tb.delete_row(start_row=at)
+    elif op == "add_column":
+        tb.add_column(start_col=at)
+    else:
+        tb.delete_column(start_col=at)
+
+
+def resize_probe(pool, cfg, op, at, items):
+    """Fresh one-sheet document in configuration cfg; read, resize the first table, read again
+    with and without a forced refresh of the name cache.  -> [(stale, fresh)]"""
+    doc, tables = pool.get(shape_of(cfg), fresh=True)
+    pool.apply(cfg, target=(doc, tables))
+    host = (0, len(tables[0]) - 1)
+    impl_texts(pool, doc, tables, host, (0, 0), items[:1])
+    with warnings.catch_warnings():
+        warnings.simplefilter("ignore")
+        do_resize(tables[0][0], op, at)
+    stale = [x[0] for x in impl_texts(pool, doc, tables, host, (0, 0), items)]
+    doc._model.name_ref_cache.mark_dirty()
+    fresh = [x[0] for x in impl_texts(pool, doc, tables, host, (0, 0), items)]
+    return list(zip(stale, fresh))
+
+
+def resize_stream(ctx, pool, n):
+    """Implementation only (metamorphic): inserting / deleting rows and columns moves the header
+    labels; the printed references must follow without a forced refresh of the name cache."""
+    rng = ctx.rng
+    fails = []
+    for k in range(n):
+        cfg = gen_cfg(rng, (1,) if k % 2 else (2,), "unique", "unique")
+        op = RESIZE_OPS[k % 4]
+        at = rng.randrange(2, NROWS)
+        items = [x[:3] for x in gen_items(rng, 40, True) if x[3][0] in ("rows", "cols", "row1", "col1")]
+        for it, (s_, f_) in zip(items, resize_probe(pool, cfg, op, at, items)):
+            ctx.count("resize")
+            if s_ != f_:
+                case = {"resize": op, "at": at, "cfg": cfg, "hrow": it[0], "hcol": it[1], "node": it[2]}
+                fails.append((f"stale-name-cache:{op}", case,
+                              f"after {op} at {at} the reference prints {s_!r}; after a cache refresh {f_!r}"))
+        ctx.dist("resize:" + op)
+    return fails
+
+
 # =====================================================================================
 def run(ctx: Ctx) -> int:
     common.standard_trusted_base(ctx, [
-        "Model/Refs.v restates model.node_to_ref, CellRange.__str__/_format_*/expand_ref and ScopedNameRefCache.calculate_named_ranges over an abstract naming configuration; tied to the code by the correspondence streams only",
+        "Model/Refs.v restates model.node_to_ref, CellRange.__str__/_format_*/expand_ref and ScopedNameRefCache.calculate_named_ranges (the tree with fixes/C09-*.patch applied) over an abstract naming configuration; tied to the code by the correspondence streams only",
+        "tools/gen_c09.py: reads the open-end sentinels from the AST of model.node_to_ref (Gen/GenRefs.v); tools/translate.py: OPERATOR_PRECEDENCE keys (Gen/GenConsts.v); tied in Props/C09.v gen_refs_constants",
         "the table uuid -> table id map (table_uuids_to_id / calculate_table_uuid_map) is not modelled: the model receives the target table index; the harness puts the target's real UUID into every node, so a wrong map shows as a disagreement",
         "protobuf field presence (HasField) and repeated-field indexing as used by the harness to build nodes",
-        "the resolver of the theorems (resolve_table / resolve_label) states the library's own scoping rule as the property describes it; Numbers' actual resolver is not available. Names are compared exactly (not ignoring case)",
+        "the resolver of the theorems (resolve_table / resolve_label / resolve_span) is compared with the oracle's Python resolver on every printed prefix, label and label span (stream resolver)",
+        "the cache-invalidation path (Table.write, header counts, add/delete row/column -> name_ref_cache.mark_dirty) is checked by implementation-only metamorphic streams (edits, resize), not modelled",
+        "the resolver of the theorems (resolve_table / resolve_label / resolve_span) states the library's own scoping rule as the property describes it; Numbers' actual resolver is not available. Names are compared exactly (not ignoring case)",
     ])
     ctx.assumptions += [
         "header labels are text cells; labels of coordinate form (A1, 12, AB), labels starting with '$' and names containing ':' are outside the generated domain (their printed form is indistinguishable from a coordinate)",
@@ -871,7 +941,7 @@ def run(ctx: Ctx) -> int:
     recorded = []
     fails = []
     rng = ctx.rng
-    per_shape = 5 if ctx.quick else 12
+    per_shape = 9 if ctx.quick else 5
     for shape in shapes_for(ctx):
         ntab = sum(shape)
         for k in range(per_shape):
@@ -881,12 +951,13 @@ def run(ctx: Ctx) -> int:
             ctx.dist("names:" + nm)
             ctx.dist("headers:" + hm)
             ctx.dist("tables:%d" % ntab)
-            fails += run_config(ctx, pool, exe, cfg, "refs", pair_limit=12 if ctx.quick else 30,
+            fails += run_config(ctx, pool, exe, cfg, "refs", pair_limit=12 if ctx.quick else 16,
                                 budget=pair_budget(ctx), malformed=6, record=recorded if k % 2 == 0 else None)
     if exe:
         step = max(1, len(recorded) // (3000 if ctx.quick else 20000))
         resolver_stream(ctx, exe, recorded[::step])
     fails += edit_stream(ctx, pool, 8 if ctx.quick else 40)
+    fails += resize_stream(ctx, pool, 8 if ctx.quick else 40)
     for sig, case, detail in fails:
         ctx.oracle_fail(sig, case, detail)
     return common.finish(ctx, search)
@@ -913,6 +984,12 @@ def search(ctx: Ctx, broken) -> list:
 
 def check_case(pool, case):
     cfg = case["cfg"]
+    if "resize" in case:
+        nd = denode(case["node"])
+        stale, fresh = resize_probe(pool, cfg, case["resize"], case["at"], [(case["hrow"], case["hcol"], nd)])[0]
+        if stale != fresh:
+            return (f"stale-name-cache:{case['resize']}", f"after the resize {stale!r}, after a cache refresh {fresh!r}")
+        return None
     doc, tables = pool.apply(cfg)
     host = tuple(case["host"])
     tgt = None if case["tgt"] is None else tuple(case["tgt"])
